@@ -62,6 +62,8 @@ def main():
                 labels = mod.check_case(case)
             except Violation:
                 raise
+            except core.Abort as a:
+                raise Violation(a.kind, a.detail) from None
             except Exception as e:
                 v = core.as_violation(e)
                 if v is None:
